@@ -99,7 +99,9 @@ Resolved ==
       units |-> Nearest(Tail(levels), "units"),         \* units and default are typedef statements
       dflt |-> Nearest(Tail(levels), "dflt"),
       pats |-> IF next.n = "string" THEN pats ELSE <<>>,
-      bound |-> IF chain = <<>> THEN "" ELSE chain[1].slot]
+      bound |-> IF chain = <<>> THEN "" ELSE chain[1].slot,
+      \* union members: those written at the union, in order, equal members once
+      members |-> IF next.n = "union" THEN Dedup(prog.members, {}) ELSE <<>>]
 
 \* ---- declarative properties ---------------------------------------------------------
 Done == pc = "done"
